@@ -110,12 +110,16 @@ def slice_fit(item):
         if t.kind == 'punct' and t.text in rsparse.OPEN:
             k = rsparse.match_close(toks, k) + 1
             continue
-        if t.kind == 'ident' and t.text == 'match' and toks[k + 1].text == 'last':
-            m_at = k
-            break
+        if t.kind == 'ident' and t.text == 'match' and toks[k + 1].kind == 'ident' and toks[k + 2].text == '{':
+            m_at = k          # the last top-level `match <ident> {` of the body
+            k = rsparse.match_close(toks, k + 2) + 1
+            continue
         k += 1
     if m_at is None:
-        raise LostAnchor('_fit: `match last {` not found')
+        raise LostAnchor('_fit: no final `match <selected> { .. }` found')
+    if rsparse.match_close(toks, m_at + 2) != bc - 1:
+        raise LostAnchor('_fit: the `match` on the selected unit is not the last expression of the body')
+    sel = toks[m_at + 1].text
     # statements in front of `match last`: the iterator pipeline (dropped, K-fit) vs anything else (kept verbatim)
     PIPE = {'iter_units', 'iter', 'si_prefix', 'filter', 'next', 'last', 'find', 'take_while', 'skip_while', 'rev', 'max_by',
             'min_by', 'fold', 'position', 'nth', 'collect', 'peekable', 'take', 'skip'}
@@ -142,11 +146,14 @@ def slice_fit(item):
             bound.add(txt[k])
             continue
         kept.append(item.src[st[0].start:st[-1].end])
-    if 'first' not in bound or 'last' not in bound:
-        raise LostAnchor('_fit: pipeline does not bind `first` and `last`')
+    # `sel` is the Option the final match inspects; the fallback unit is the other pipeline-bound name used there
+    mtoks = {t.text for t in toks[m_at + 2:bc] if t.kind == 'ident'}
+    fallback = [b for b in bound if b != sel and b in mtoks]
+    if sel not in bound or len(fallback) != 1:
+        raise LostAnchor(f'_fit: cannot identify the fallback unit and the selected unit of the pipeline (bound: {sorted(bound)})')
     tail = item.src[toks[m_at].start:toks[bc].end]
     pre = ''.join('        ' + k + '\n' for k in kept)
-    return ('{\n' + pre + '        let (first, last) = Self::_fit_select(amount); // R3: stands for the iterator pipeline (K-fit)\n        ' + tail)
+    return ('{\n' + pre + f'        let ({fallback[0]}, {sel}) = Self::_fit_select(amount); // R3: stands for the iterator pipeline (K-fit)\n        ' + tail)
 
 
 class Emitter:
@@ -362,7 +369,19 @@ def gen_m1_f64(subst=F64_SUBST):
     return text, em
 
 
+def gen_m1_dec(subst=F64_SUBST):
+    """Layer-B lemmas over the M1-dec rounding model (fpdec::Decimal)"""
+    em = Emitter('lemmas_m1_dec', Contracts('generic.toml'))
+    parts = [em.render(f, subst) for f in ('shim_m0.vrs', 'traits_core.vrs', 'hasref_specs.vrs', 'trait_hasref.vrs',
+                                           'derived_specs.vrs', 'lemmas_derived_m0.vrs', 'm1_dec.vrs', 'lemmas_m1_dec.vrs')]
+    parts.insert(1, em.lits.decls())
+    text = mark_lemmas(wrap('\n\n'.join(parts)), em.unit)
+    text = '\n'.join(l for l in text.split('\n') if not (l.strip().startswith('//@ob ') and 'kind=exec' in l))
+    em.records = []
+    return text, em
+
+
 if __name__ == '__main__':
     which = sys.argv[1]
-    text, em = {'quantity': gen_quantity, 'hasref': gen_hasref, 'm1': gen_m1_f64}[which]()
+    text, em = {'quantity': gen_quantity, 'hasref': gen_hasref, 'm1': gen_m1_f64, 'm1dec': gen_m1_dec}[which]()
     sys.stdout.write(text)
